@@ -11,4 +11,4 @@ import overlay; overlay.make('$kind','${DEV:-/tmp/dev}/ov-$kind')" || exit 1
 [ -d ${DEV:-/tmp/dev}/target-$kind ] || cp -a /verif/.cache/warm-target ${DEV:-/tmp/dev}/target-$kind
 args=()
 for h in "$@"; do args+=(--harness "$h"); done
-cd ${DEV:-/tmp/dev}/ov-$kind && CARGO_NET_OFFLINE=true cargo kani --no-default-features -Z stubbing -Z unstable-options --target-dir ${DEV:-/tmp/dev}/target-$kind --harness-timeout ${to}s -j 8 --output-format terse "${args[@]}" 2>&1 | grep -v "^warning\|^ *|\|^ *=\|^$\|-->\|^[0-9 ]*|" 
+cd ${DEV:-/tmp/dev}/ov-$kind && CARGO_NET_OFFLINE=true cargo kani --no-default-features $( [ $kind = p ] && echo "--features kani_projection" ) -Z stubbing -Z unstable-options --target-dir ${DEV:-/tmp/dev}/target-$kind --harness-timeout ${to}s -j 8 --output-format terse "${args[@]}" 2>&1 | grep -v "^warning\|^ *|\|^ *=\|^$\|-->\|^[0-9 ]*|" 
